@@ -124,20 +124,65 @@ def crossval(ctx) -> None:
 def metric(ctx) -> None:
     prog = ctx.prog
     fn = prog.func(f'{METRIC}:Function.score')
-    ap = fn.nested('apply')
-    subs = {}
-    for c in core.calls_in(ap.node):
-        if isinstance(c.func, ast.Attribute) and c.func.attr == 'subscribe' and isinstance(c.func.value, ast.Subscript):
-            subs[core.src(c.func.value.slice)] = core.src(c.args[0])
-    ctx.check(subs == {'0': 'partition.true', '1': 'partition.pred'}, 'C12.metric', ap, f'the metric receives (true, pred) of one outcome in that order ({subs})', ap.node, key='metric:args')
-    w = next((c for c in core.calls_in(ap.node) if core.call_tail(c) == 'Worker'), None)
-    ctx.check(w is not None and [core.src(a) for a in w.args] == ['self._metric', '2', '1'], 'C12.metric', ap, 'a fresh 2-input metric worker per outcome', w or ap.node, key='metric:worker')
-    mg = fn.nested('merge')
-    ctx.check('reducer[index].subscribe(partition[0])' in core.src(mg.node), 'C12.metric', mg, 'a partition score enters the reducer at its own index', mg.node, key='merge')
-    text = core.src(fn.node)
-    first = 'result = apply(outcomes[0])' in text and 'merge(flow.Worker(self._reducer, partition_count, 1), result, 0)' in text
-    rest = 'for idx, out in enumerate(outcomes[1:], start=1)' in text and 'merge(result, apply(out), idx)' in text
-    ctx.check(first and rest and 'partition_count := len(outcomes)' in text, 'C12.metric', fn, 'every fold outcome is scored exactly once: outcome 0 at index 0, outcomes[1:] at indices 1.. (reducer width = number of outcomes)', fn.node, key='metric:exactly-once')
+    # decided on the wiring events of the abstract interpretation of score() (nested / extracted helpers followed, star
+    # unpacking and slices resolved to element indices of `outcomes`): the spelling of the function does not matter
+    from .. import roles
+
+    it = roles.interpret(prog, fn)
+    if it.incomplete:
+        ctx.fail('C12.metric', fn, f'wiring construct outside the interpreter vocabulary: {it.incomplete}', fn.node, key='metric:incomplete')
+        return
+    subs = [e for e in it.events if e.kind == 'subscribe' and isinstance(e.data['target'], roles.VPort)]
+    metric_workers = [w for w in it.workers if w.group.builder == 'self._metric']
+    reducers = [w for w in it.workers if w.group.builder == 'self._reducer']
+    elem_of = {}  # metric worker -> index (VInt key) of the outcome it scores
+    okargs = bool(metric_workers)
+    okfresh = True
+    for w in metric_workers:
+        got = {}
+        for e in subs:
+            tgt, pub = e.data['target'], e.data['pub']
+            if tgt.worker is w and isinstance(tgt.index, roles.VInt) and tgt.index.var is None:
+                if isinstance(pub, roles.VPub) and pub.kind == 'field' and isinstance(pub.ref[0], roles.VNamed) and pub.ref[0].cls == 'elem:outcomes' and isinstance(pub.ref[0].fields.get('#index'), roles.VInt):
+                    got[tgt.index.b] = (pub.ref[1], pub.ref[0].fields['#index'].key())
+                else:
+                    got[tgt.index.b] = (repr(pub), None)
+        okargs = okargs and set(got) == {0, 1} and got[0][0] == 'true' and got[1][0] == 'pred' and got[0][1] is not None and got[0][1] == got[1][1]
+        if set(got) == {0, 1}:
+            elem_of[id(w)] = got[0][1]
+        szin, szout = w.group.szin, w.group.szout
+        okfresh = okfresh and isinstance(szin, roles.VInt) and szin.key() == (0, None, 2) and isinstance(szout, roles.VInt) and szout.key() == (0, None, 1)
+    ctx.check(okargs, 'C12.metric', fn, 'the metric receives (true, pred) of one and the same outcome, in that order', fn.node, key='metric:args')
+    ctx.check(okfresh and len({id(w.group) for w in metric_workers}) == len(metric_workers) and all(w.forked_from is None for w in metric_workers), 'C12.metric', fn, 'a fresh 2-input metric worker per outcome', fn.node, key='metric:worker')
+    # the reducer: one worker of width len(outcomes); the score of outcome i enters at port i; i = 0 and every i of 1..
+    okred = len(reducers) == 1
+    entered = []
+    if okred:
+        red = reducers[0]
+        width = red.group.node.args[1] if isinstance(red.group.node, ast.Call) and len(red.group.node.args) > 1 else None
+        wtext = core.src(width) if width is not None else ''
+        if isinstance(width, ast.Name):
+            walrus = [x for x in ast.walk(fn.node) if isinstance(x, ast.NamedExpr) and x.target.id == width.id] + [a for a in ast.walk(fn.node) if isinstance(a, ast.Assign) and core.src(a.targets[0]) == width.id]
+            wtext = core.src(walrus[0].value) if len(walrus) == 1 else wtext
+        ctx.check(wtext == 'len(outcomes)', 'C12.metric', fn, f'the reducer is as wide as there are outcomes ({wtext})', red.node, key='metric:width')
+        for e in subs:
+            tgt, pub = e.data['target'], e.data['pub']
+            if tgt.worker is red:
+                src_w = pub.ref.worker if isinstance(pub, roles.VPub) and pub.kind == 'port' else None
+                port0 = isinstance(pub, roles.VPub) and pub.kind == 'port' and isinstance(pub.ref.index, roles.VInt) and pub.ref.index.key() == (0, None, 0)
+                entered.append((tgt.index.key() if isinstance(tgt.index, roles.VInt) else None, elem_of.get(id(src_w)) if src_w is not None and port0 else 'other', e))
+    ctx.check(okred and bool(entered) and all(p is not None and p == q for p, q, _ in entered), 'C12.metric', fn, f'a partition score enters the reducer at the index of its own outcome ({[(p, q) for p, q, _ in entered]})', fn.node, key='merge')
+    consts = [p for p, q, _ in entered if p is not None and p[1] is None]
+    symbolic = [(p, e) for p, q, e in entered if p is not None and p[1] is not None]
+    okonce = consts == [(0, None, 0)] and len(symbolic) == 1 and symbolic[0][0][0] == 1 and symbolic[0][0][2] == 0
+    if okonce:
+        # the loop that feeds ports 1..: enumerate(<outcomes from 1 on>, start=1)
+        var = symbolic[0][0][1]
+        desc = next((d for v, d in symbolic[0][1].loops if v == var), '')
+        okonce = desc.startswith('enumerate:1:')
+    ctx.check(okonce, 'C12.metric', fn, 'every fold outcome is scored exactly once: outcome 0 at index 0, the others at indices 1.. (enumerate from 1 over the outcomes from 1 on)', fn.node, key='metric:exactly-once')
+    rets = [v for v, _ in it.returned]
+    ctx.check(bool(rets) and all((okred and v is reducers[0]) or (id(v) in elem_of and elem_of[id(v)] == (0, None, 0)) for v in rets), 'C12.metric', fn, 'score() returns the reducer (several outcomes) or the single metric worker (one outcome)', fn.node, key='metric:return')
     # every Outcome built in forml.evaluation binds the *true* labels to `true` and the predictions to `pred` (both are
     # publishers: the metric of swapped operands is silently wrong for every asymmetric metric)
     nout = 0
